@@ -9,8 +9,7 @@
 
    Not modelled (outside the universe; the harness never generates them): Marshaler / Unmarshaler /
    UDTMarshaler / UDTUnmarshaler user hooks, embedded structs and unexported struct fields, string
-   sources for inet / date / duration (net.ParseIP, time.Parse, time.ParseDuration), *string targets
-   for date and for IPv6 inet values (time.Format, net.IP.String), 32-bit platforms
+   sources for inet / date / duration (net.ParseIP, time.Parse, time.ParseDuration), 32-bit platforms
    (int/uint are 64 bits), zero-arity tuples. *)
 From GocqlV Require Import Lib.Base Gen.Consts.
 From GocqlV Require C19.Model.
@@ -261,6 +260,60 @@ Definition ipv4_string (b : bytes) : bytes :=
   | _ => []
   end.
 
+
+(* net.IP.String for a 16-byte address that is not IPv4-mapped (netip.Addr.string6): lower-case hex
+   groups without leading zeros, the leftmost longest run of at least two zero groups replaced by "::" *)
+Fixpoint groups16 (b : bytes) : list Z :=
+  match b with hi :: lo :: r => (hi * 256 + lo) :: groups16 r | _ => [] end.
+Fixpoint zero_run (g : list Z) : nat :=
+  match g with 0 :: r => S (zero_run r) | _ => O end.
+Fixpoint best_run (g : list Z) (i : nat) (best : nat * nat) : nat * nat :=
+  match g with
+  | [] => best
+  | _ :: r => let l := zero_run g in
+              best_run r (S i) (if (2 <=? l)%nat && (snd best <? l)%nat then (i, l) else best)
+  end.
+Definition hexdigit (n : Z) : Z := if n <? 10 then 48 + n else 97 + (n - 10).
+Definition hex16 (x : Z) : bytes :=
+  if x <? 16 then [hexdigit x]
+  else if x <? 256 then [hexdigit (x / 16); hexdigit (x mod 16)]
+  else if x <? 4096 then [hexdigit (x / 256); hexdigit ((x / 16) mod 16); hexdigit (x mod 16)]
+  else [hexdigit (x / 4096); hexdigit ((x / 256) mod 16); hexdigit ((x / 16) mod 16); hexdigit (x mod 16)].
+(* skip: groups still inside the elided run; gap: the previous thing written was "::" *)
+Fixpoint render6 (g : list Z) (i : nat) (zs zl : nat) (skip : nat) (gap : bool) : bytes :=
+  match g with
+  | [] => []
+  | x :: r =>
+      match skip with
+      | S k => render6 r (S i) zs zl k gap
+      | O => if (0 <? zl)%nat && (i =? zs)%nat then [58; 58] ++ render6 r (S i) zs zl (zl - 1) true
+             else (if (0 <? i)%nat && negb gap then [58] else []) ++ hex16 x ++ render6 r (S i) zs zl O false
+      end
+  end.
+Definition ipv6_string (b : bytes) : bytes :=
+  let g := groups16 b in
+  let '(zs, zl) := best_run g 0 (0, 0)%nat in
+  render6 g 0 zs zl 0 false.
+
+(* time.Time.Format("2006-01-02") of day number [days] (days since 1970-01-01, proleptic Gregorian):
+   civil-from-days, year printed with at least 4 digits and a leading '-' when negative *)
+Definition civil_of_days (days : Z) : Z * Z * Z :=
+  let z := days + 719468 in
+  let era := z / 146097 in
+  let doe := z - era * 146097 in
+  let yoe := (doe - doe / 1460 + doe / 36524 - doe / 146096) / 365 in
+  let doy := doe - (365 * yoe + yoe / 4 - yoe / 100) in
+  let mp := (5 * doy + 2) / 153 in
+  let d := doy - (153 * mp + 2) / 5 + 1 in
+  let m := if mp <? 10 then mp + 3 else mp - 9 in
+  ((yoe + era * 400 + (if m <=? 2 then 1 else 0)), m, d).
+Definition pad_int (w : nat) (v : Z) : bytes :=
+  let ds := digits_fuel 20 (Z.abs v) [] in
+  (if v <? 0 then [45] else []) ++ repeat 48 (w - length ds) ++ ds.
+Definition date_string (days : Z) : bytes :=
+  let '(y, m, d) := civil_of_days days in
+  pad_int 4 y ++ [45] ++ pad_int 2 m ++ [45] ++ pad_int 2 d.
+
 (* ================================================================================================
    Marshal: the per-type functions on a value whose pointers have been peeled (Marshal, 118-126)
    ================================================================================================ *)
@@ -285,6 +338,7 @@ Definition marshal_varchar (g : gval) : mres :=
   | GUnset => Ok None
   | GStr _ s => some_bytes s                    (* string, or reflect Kind String *)
   | GBytes _ b => Ok b                          (* []byte (nil stays nil), or reflect slice of uint8 *)
+  | GIP b => Ok (match b with [] => None | _ => Some b end)   (* net.IP is a slice of uint8; GIP [] is the nil IP *)
   | GNil => Ok None
   | _ => Err
   end.
@@ -518,6 +572,7 @@ Definition unmarshal_varchar (d : odata) (t : gty) : ures :=
       (* append of data to the zero-length prefix of a nil target slice: empty data leaves nil *)
       match d with Some (x :: r) => Ok (GBytes false (Some (x :: r))) | _ => Ok (GBytes false None) end
   | YBytes true => Ok (GBytes true d)
+  | YIP => Ok (GIP (bytes_of d))                (* net.IP: reflect slice of uint8 *)
   | _ => Err
   end.
 
@@ -637,6 +692,15 @@ Definition unmarshal_date (d : odata) (t : gty) : ures :=
                   (* time.UnixMilli *)
                   Ok (GTime (ts / 1000) ((ts mod 1000) * 1000000))
       end
+  | YStr false =>
+      let data := bytes_of d in
+      match data with
+      | [] => Ok (GStr false [])
+      | _ => if (length data <? 4)%nat then Panic
+             else let cur := be_val (firstn 4 data) in
+                  let ts := signed 64 ((cur - Z.shiftl 1 31) * K.millisecondsInADay) in
+                  Ok (GStr false (date_string (ts / K.millisecondsInADay)))
+      end
   | _ => Err
   end.
 
@@ -697,7 +761,8 @@ Definition unmarshal_inet (d : odata) (t : gty) : ures :=
       | [] => Ok (GStr false [])
       | _ => match ip_to4 data with
              | Some v4 => Ok (GStr false (ipv4_string v4))
-             | None => Err       (* net.IP.String of other lengths: not modelled, never generated *)
+             | None => if (length data =? 16)%nat then Ok (GStr false (ipv6_string data))
+                       else Err       (* net.IP.String of other lengths ("?" + hex): not modelled, never generated *)
              end
       end
   | _ => Err
@@ -723,3 +788,502 @@ Definition unmarshal_native (id : Z) (d : odata) (t : gty) : ures :=
   else if id =? K.TypeDate then unmarshal_date d t
   else if id =? K.TypeDuration then unmarshal_duration d t
   else Err.
+
+(* ================================================================================================
+   Collections, tuples, UDTs: framing
+   ================================================================================================ *)
+Definition blen (b : bytes) : Z := Z.of_nat (length b).
+
+(* writeCollectionSize (1553-1573) *)
+Definition write_size (pv n : Z) : res bytes :=
+  if K.protoVersion2 <? pv then (if MaxInt32 <? n then Err else Ok (enc_int n))
+  else (if MaxUint16 <? n then Err else Ok (enc_short n)).
+
+(* the loop body shared by marshalList and marshalMap: Marshal, length (-1 for nil on v3+), bytes *)
+Definition marshal_item (pv : Z) (f : gval -> mres) (x : gval) : res bytes :=
+  rbind (f x) (fun item =>
+    let itemLen := match item with
+                   | None => if K.protoVersion2 <? pv then -1 else 0
+                   | Some b => blen b
+                   end in
+    rbind (write_size pv itemLen) (fun sz => Ok (sz ++ bytes_of item))).
+
+Fixpoint marshal_items (pv : Z) (f : gval -> mres) (l : list gval) : res bytes :=
+  match l with
+  | [] => Ok []
+  | x :: r => rbind (marshal_item pv f x) (fun a => rbind (marshal_items pv f r) (fun b => Ok (a ++ b)))
+  end.
+
+Fixpoint marshal_entries (pv : Z) (fk fv : gval -> mres) (l : list (gval * gval)) : res bytes :=
+  match l with
+  | [] => Ok []
+  | (k, v) :: r =>
+      rbind (marshal_item pv fk k) (fun a => rbind (marshal_item pv fv v) (fun b =>
+      rbind (marshal_entries pv fk fv r) (fun c => Ok (a ++ b ++ c))))
+  end.
+
+(* what marshalList iterates over: slices, arrays, []interface{}, byte slices, map[X]struct{} keys *)
+Inductive aslist := LNilSlice | LItems (l : list gval) | LNot.
+Definition as_list (g : gval) : aslist :=
+  match g with
+  | GSlice None => LNilSlice
+  | GSlice (Some l) => LItems l
+  | GArray l => LItems l
+  | GIfaces l => LItems l
+  | GBytes _ None => LNilSlice
+  | GBytes _ (Some b) => LItems (map (GInt U8 false) b)
+  | GSetMap keys => LItems keys
+  | _ => LNot
+  end.
+
+(* marshalList (1575-1631) *)
+Definition marshal_list (pv : Z) (f : gval -> mres) (g : gval) : mres :=
+  match g with
+  | GNil => Ok None | GUnset => Ok None
+  | _ => match as_list g with
+         | LNilSlice => Ok None
+         | LItems l => rbind (write_size pv (Z.of_nat (length l))) (fun h =>
+                       rbind (marshal_items pv f l) (fun r => Ok (Some (h ++ r))))
+         | LNot => Err
+         end
+  end.
+
+(* marshalMap (1712-1773) *)
+Definition marshal_map (pv : Z) (fk fv : gval -> mres) (g : gval) : mres :=
+  match g with
+  | GNil => Ok None | GUnset => Ok None
+  | GMap None => Ok None
+  | GMap (Some l) => rbind (write_size pv (Z.of_nat (length l))) (fun h =>
+                     rbind (marshal_entries pv fk fv l) (fun r => Ok (Some (h ++ r))))
+  | GSetMap [] => rbind (write_size pv 0) (fun h => Ok (Some h))
+  | GSetMap _ => Err      (* values are struct{}: marshalling them fails for every CQL value type modelled *)
+  | GStrMap None => Ok None
+  | GStrMap (Some l) =>      (* map[string]interface{} is a map like any other here *)
+      rbind (write_size pv (Z.of_nat (length l))) (fun h =>
+      rbind (marshal_entries pv fk fv (map (fun nv => (GStr false (fst nv), snd nv)) l)) (fun r => Ok (Some (h ++ r))))
+  | _ => Err
+  end.
+
+(* marshalTuple (2003-2092): one component *)
+Definition tuple_elem (iface : bool) (f : gval -> mres) (x : gval) : res bytes :=
+  let null := if iface then match x with GNil => true | _ => false end
+              else match x with GPtr None => true | _ => false end in
+  if null then Ok (enc_int (-1))
+  else rbind (f x) (fun data => let b := bytes_of data in Ok (enc_int (blen b) ++ b)).
+
+Fixpoint tuple_items (iface : bool) (fs : list (gval -> mres)) (vs : list gval) : res bytes :=
+  match fs, vs with
+  | f :: fs', x :: vs' => rbind (tuple_elem iface f x) (fun a => rbind (tuple_items iface fs' vs') (fun b => Ok (a ++ b)))
+  | _, _ => Ok []
+  end.
+
+Definition marshal_tuple (fs : list (gval -> mres)) (g : gval) : mres :=
+  let go iface vs := if (length vs =? length fs)%nat then rmap Some (tuple_items iface fs vs) else Err in
+  match g with
+  | GUnset => Err
+  | GIfaces l => go true l
+  | GStruct fields => go false (map snd fields)
+  | GSlice (Some l) => go false l
+  | GArray l => go false l
+  | GNil => Panic            (* reflect.ValueOf(nil).Type() *)
+  | _ => Err
+  end.
+
+(* appendBytes (frame.go:1943) *)
+Definition append_bytes (d : option bytes) : bytes :=
+  match d with None => enc_int (-1) | Some b => enc_int (blen b) ++ b end.
+
+Fixpoint assoc {A} (name : bytes) (l : list (bytes * A)) : option A :=
+  match l with
+  | [] => None
+  | (n, v) :: r => if zlist_eqb n name then Some v else assoc name r
+  end.
+
+(* struct field for a UDT element name: the cql tag map (later fields overwrite earlier ones), then
+   FieldByName *)
+Fixpoint by_tag {A} (name : bytes) (fs : list (bytes * bytes * A)) (acc : option A) : option A :=
+  match fs with
+  | [] => acc
+  | (_, tag, v) :: r => by_tag name r (if negb (zlist_eqb tag []) && zlist_eqb tag name then Some v else acc)
+  end.
+Fixpoint by_name {A} (name : bytes) (fs : list (bytes * bytes * A)) : option A :=
+  match fs with
+  | [] => None
+  | (n, _, v) :: r => if zlist_eqb n name then Some v else by_name name r
+  end.
+Definition struct_field {A} (name : bytes) (fs : list (bytes * bytes * A)) : option A :=
+  match by_tag name fs None with Some v => Some v | None => by_name name fs end.
+
+(* marshalUDT (2233-2316) *)
+Fixpoint udt_items (look : bytes -> option gval) (fs : list (bytes * (gval -> mres))) : res bytes :=
+  match fs with
+  | [] => Ok []
+  | (name, f) :: r =>
+      rbind (match look name with Some v => f v | None => Ok None end) (fun data =>
+      rbind (udt_items look r) (fun b => Ok (append_bytes data ++ b)))
+  end.
+
+Definition marshal_udt (fs : list (bytes * (gval -> mres))) (g : gval) : mres :=
+  match g with
+  | GUnset => Err
+  | GStrMap m => rmap Some (udt_items (fun name => assoc name (match m with Some l => l | None => [] end)) fs)
+  | GStruct fields => rmap Some (udt_items (fun name => struct_field name fields) fs)
+  | _ => Err
+  end.
+
+(* Marshal (113-182) *)
+Fixpoint marshal (pv : Z) (ty : cqlty) (g : gval) {struct ty} : mres :=
+  match peel g with
+  | None => Ok None
+  | Some v =>
+      match ty with
+      | TNative id => marshal_native id v
+      | TList e | TSet e => marshal_list pv (marshal pv e) v
+      | TMap k e => marshal_map pv (marshal pv k) (marshal pv e) v
+      | TTuple es => marshal_tuple (map (marshal pv) es) v
+      | TUdt fs => marshal_udt (map (fun nf => (fst nf, marshal pv (snd nf))) fs) v
+      end
+  end.
+
+(* ---- Unmarshal ----------------------------------------------------------------------------------- *)
+(* goType (helpers.go:43-103) *)
+Fixpoint gotype (ty : cqlty) : option gty :=
+  match ty with
+  | TNative id =>
+      if (id =? K.TypeVarchar) || (id =? K.TypeAscii) || (id =? K.TypeInet) || (id =? K.TypeText) then Some (YStr false)
+      else if (id =? K.TypeBigInt) || (id =? K.TypeCounter) then Some (YInt I64 false)
+      else if id =? K.TypeTime then Some YDur
+      else if id =? K.TypeTimestamp then Some YTime
+      else if id =? K.TypeBlob then Some (YBytes false)
+      else if id =? K.TypeBoolean then Some (YBool false)
+      else if id =? K.TypeFloat then Some (YF32 false)
+      else if id =? K.TypeDouble then Some (YF64 false)
+      else if id =? K.TypeInt then Some (YInt IInt false)
+      else if id =? K.TypeSmallInt then Some (YInt I16 false)
+      else if id =? K.TypeTinyInt then Some (YInt I8 false)
+      else if id =? K.TypeDecimal then Some (YPtr YDec)
+      else if (id =? K.TypeUUID) || (id =? K.TypeTimeUUID) then Some YUUID
+      else if id =? K.TypeVarint then Some (YPtr YBig)
+      else if id =? K.TypeDate then Some YTime
+      else if id =? K.TypeDuration then Some YCqlDur
+      else None
+  | TList e | TSet e => option_map YSlice (gotype e)
+  | TMap k v => match gotype k, gotype v with Some a, Some b => Some (YMap a b) | _, _ => None end
+  | TTuple _ => Some (YSlice YIface)
+  | TUdt _ => Some YStrMap
+  end.
+
+(* the zero value of a target type *)
+Fixpoint zero_of (t : gty) : gval :=
+  match t with
+  | YInt k n => GInt k n 0 | YStr n => GStr n [] | YBytes n => GBytes n None | YBool n => GBool n false
+  | YF32 n => GF32 n 0 | YF64 n => GF64 n 0 | YBig => GBig 0 | YDec => GDec 0 0
+  | YTime => GTime zero_time_sec 0 | YDur => GDur 0 | YCqlDur => GCqlDur 0 0 0
+  | YUUID => GUUID zeros16 | YArr16 => GArr16 zeros16 | YIP => GIP []
+  | YSlice _ => GSlice None | YArray n e => GArray (repeat (zero_of e) n) | YMap _ _ => GMap None
+  | YIfaces ts => GIfaces (map zero_of ts)
+  | YStrMap => GStrMap None
+  | YStruct fs => GStruct (map (fun f => (fst (fst f), snd (fst f), zero_of (snd f))) fs)
+  | YPtr _ => GPtr None
+  | YIface => GNil
+  end.
+
+(* isNullableValue / unmarshalNullable (288-309): pointer targets *)
+Fixpoint ptr_wrap (t : gty) (d : odata) (core : gty -> ures) : ures :=
+  match t with
+  | YPtr e => match d with
+              | None => Ok (GPtr None)
+              | Some _ => rmap (fun v => GPtr (Some v)) (ptr_wrap e d core)
+              end
+  | _ => core t
+  end.
+
+(* readCollectionSize (1633-1648) *)
+Definition read_size (pv : Z) (data : bytes) : res (Z * bytes) :=
+  if K.protoVersion2 <? pv then
+    (if (length data <? 4)%nat then Err else Ok (dec_int (firstn 4 data), skipn 4 data))
+  else
+    (if (length data <? 2)%nat then Err
+     else Ok (Z.lor (Z.shiftl (nth 0 data 0) 8) (nth 1 data 0), skipn 2 data)).
+
+(* one length-prefixed element of a list / map *)
+Definition read_elem (pv : Z) (data : bytes) : res (odata * bytes) :=
+  rbind (read_size pv data) (fun mr =>
+    let '(m, rest) := mr in
+    if 0 <=? m then
+      (if blen rest <? m then Err else Ok (Some (firstn (Z.to_nat m) rest), skipn (Z.to_nat m) rest))
+    else Ok (None, rest)).
+
+Fixpoint list_loop (fuel : nat) (pv : Z) (f : odata -> ures) (n : Z) (data : bytes) : res (list gval) :=
+  if n <=? 0 then Ok []
+  else match fuel with
+       | O => Fuel
+       | S fu => rbind (read_elem pv data) (fun dr =>
+                 rbind (f (fst dr)) (fun v =>
+                 rbind (list_loop fu pv f (n - 1) (snd dr)) (fun vs => Ok (v :: vs))))
+       end.
+
+(* structural equality of Go values (used for map keys) *)
+Fixpoint gval_eqb (a b : gval) {struct a} : bool :=
+  let fix leq (x y : list gval) {struct x} : bool :=
+    match x, y with
+    | [], [] => true
+    | p :: x', q :: y' => gval_eqb p q && leq x' y'
+    | _, _ => false
+    end in
+  let fix peq (x y : list (gval * gval)) {struct x} : bool :=
+    match x, y with
+    | [], [] => true
+    | (p1, p2) :: x', (q1, q2) :: y' => gval_eqb p1 q1 && gval_eqb p2 q2 && peq x' y'
+    | _, _ => false
+    end in
+  let fix seq_ (x y : list (bytes * gval)) {struct x} : bool :=
+    match x, y with
+    | [], [] => true
+    | (n1, p) :: x', (n2, q) :: y' => zlist_eqb n1 n2 && gval_eqb p q && seq_ x' y'
+    | _, _ => false
+    end in
+  let fix feq (x y : list (bytes * bytes * gval)) {struct x} : bool :=
+    match x, y with
+    | [], [] => true
+    | (n1, t1, p) :: x', (n2, t2, q) :: y' => zlist_eqb n1 n2 && zlist_eqb t1 t2 && gval_eqb p q && feq x' y'
+    | _, _ => false
+    end in
+  match a, b with
+  | GNil, GNil => true | GUnset, GUnset => true
+  | GInt k1 n1 z1, GInt k2 n2 z2 =>
+      (match k1, k2 with
+       | I8, I8 | I16, I16 | I32, I32 | I64, I64 | IInt, IInt | U8, U8 | U16, U16 | U32, U32 | U64, U64 | UInt, UInt => true
+       | _, _ => false end) && Bool.eqb n1 n2 && (z1 =? z2)
+  | GStr n1 s1, GStr n2 s2 => Bool.eqb n1 n2 && zlist_eqb s1 s2
+  | GBytes n1 b1, GBytes n2 b2 => Bool.eqb n1 n2 && opt_eqb zlist_eqb b1 b2
+  | GBool n1 b1, GBool n2 b2 => Bool.eqb n1 n2 && Bool.eqb b1 b2
+  | GF32 n1 b1, GF32 n2 b2 => Bool.eqb n1 n2 && (b1 =? b2)
+  | GF64 n1 b1, GF64 n2 b2 => Bool.eqb n1 n2 && (b1 =? b2)
+  | GBig z1, GBig z2 => z1 =? z2
+  | GDec u1 s1, GDec u2 s2 => (u1 =? u2) && (s1 =? s2)
+  | GTime s1 n1, GTime s2 n2 => (s1 =? s2) && (n1 =? n2)
+  | GDur n1, GDur n2 => n1 =? n2
+  | GCqlDur m1 d1 n1, GCqlDur m2 d2 n2 => (m1 =? m2) && (d1 =? d2) && (n1 =? n2)
+  | GUUID b1, GUUID b2 => zlist_eqb b1 b2
+  | GArr16 b1, GArr16 b2 => zlist_eqb b1 b2
+  | GIP b1, GIP b2 => zlist_eqb b1 b2
+  | GSlice None, GSlice None => true
+  | GSlice (Some l1), GSlice (Some l2) => leq l1 l2
+  | GIfaces l1, GIfaces l2 => leq l1 l2
+  | GArray l1, GArray l2 => leq l1 l2
+  | GMap None, GMap None => true
+  | GMap (Some l1), GMap (Some l2) => peq l1 l2
+  | GSetMap l1, GSetMap l2 => leq l1 l2
+  | GStrMap None, GStrMap None => true
+  | GStrMap (Some l1), GStrMap (Some l2) => seq_ l1 l2
+  | GStruct f1, GStruct f2 => feq f1 f2
+  | GPtr None, GPtr None => true
+  | GPtr (Some p), GPtr (Some q) => gval_eqb p q
+  | _, _ => false
+  end.
+
+(* rv.SetMapIndex: an existing equal key is overwritten in place, a new key is added *)
+Fixpoint map_insert (k v : gval) (l : list (gval * gval)) : list (gval * gval) :=
+  match l with
+  | [] => [(k, v)]
+  | (k', v') :: r => if gval_eqb k' k then (k', v) :: r else (k', v') :: map_insert k v r
+  end.
+
+Fixpoint map_loop (fuel : nat) (pv : Z) (fk fv : odata -> ures) (n : Z) (data : bytes)
+         (acc : list (gval * gval)) : res (list (gval * gval)) :=
+  if n <=? 0 then Ok acc
+  else match fuel with
+       | O => Fuel
+       | S fu => rbind (read_elem pv data) (fun kr =>
+                 rbind (fk (fst kr)) (fun k =>
+                 rbind (read_elem pv (snd kr)) (fun vr =>
+                 rbind (fv (fst vr)) (fun v =>
+                 map_loop fu pv fk fv (n - 1) (snd vr) (map_insert k v acc)))))
+       end.
+
+(* readBytes (2094-2102), called only when at least 4 bytes remain: slicing past the end panics *)
+Definition read_bytes (data : bytes) : res (odata * bytes) :=
+  let size := dec_int (firstn 4 data) in
+  let p := skipn 4 data in
+  if size <? 0 then Ok (None, p)
+  else if blen p <? size then Panic
+  else Ok (Some (firstn (Z.to_nat size) p), skipn (Z.to_nat size) p).
+
+(* the tuple readers take a component only when 4 bytes remain, otherwise the component is nil *)
+Definition tuple_next (data : bytes) : res (odata * bytes) :=
+  if (4 <=? length data)%nat then read_bytes data else Ok (None, data).
+
+(* unmarshalTuple into []interface{} (2114-2127): v[i] indexes the caller's slice *)
+Fixpoint tuple_ifaces (fs : list (odata -> gty -> ures)) (ts : list gty) (data : bytes) : res (list gval) :=
+  match fs with
+  | [] => Ok []
+  | f :: fs' =>
+      rbind (tuple_next data) (fun pr =>
+      match ts with
+      | [] => Panic
+      | t :: ts' => rbind (ptr_wrap t (fst pr) (f (fst pr))) (fun v =>
+                    rbind (tuple_ifaces fs' ts' (snd pr)) (fun vs => Ok (v :: vs)))
+      end)
+  end.
+
+(* unmarshalTuple into struct / slice / array (2140-2208): each component is decoded into a fresh value
+   of goType(elem) and stored; the field is assumed to have that type or be a pointer to it *)
+Definition tuple_store (fieldty : gty) (p : odata) (v : gval) : gval :=
+  match fieldty with
+  | YPtr _ => match p with Some _ => GPtr (Some v) | None => GPtr None end
+  | _ => v
+  end.
+
+Fixpoint tuple_fields (fs : list (option gty * (odata -> gty -> ures))) (fts : list gty) (data : bytes)
+  : res (list gval) :=
+  match fs, fts with
+  | (gt, f) :: fs', ft :: fts' =>
+      rbind (tuple_next data) (fun pr =>
+      match gt with
+      | None => Err
+      | Some g => rbind (ptr_wrap g (fst pr) (f (fst pr))) (fun v =>
+                  rbind (tuple_fields fs' fts' (snd pr)) (fun vs => Ok (tuple_store ft (fst pr) v :: vs)))
+      end)
+  | _, _ => Ok []
+  end.
+
+Definition unmarshal_tuple (fs : list (option gty * (odata -> gty -> ures))) (d : odata) (t : gty) : ures :=
+  let data := bytes_of d in
+  let n := length fs in
+  match t with
+  | YIfaces ts => rmap GIfaces (tuple_ifaces (map snd fs) ts data)
+  | YStruct sfs =>
+      if negb (length sfs =? n)%nat then Err
+      else rmap (fun vs => GStruct (map (fun fv => (fst (fst (fst fv)), snd (fst (fst fv)), snd fv)) (combine sfs vs)))
+                (tuple_fields fs (map snd sfs) data)
+  | YArray k et =>
+      if negb (k =? n)%nat then Err else rmap GArray (tuple_fields fs (repeat et n) data)
+  | YSlice et => rmap (fun vs => GSlice (Some vs)) (tuple_fields fs (repeat et n) data)
+  | _ => Err
+  end.
+
+(* unmarshalUDT into *map[string]interface{} (2341-2386) *)
+Fixpoint udt_map_loop (fs : list (bytes * option gty * (odata -> gty -> ures))) (data : bytes)
+         (acc : list (bytes * gval)) : res (list (bytes * gval)) :=
+  match fs with
+  | [] => Ok acc
+  | (name, gt, f) :: fs' =>
+      match data with
+      | [] => Ok acc
+      | _ => if (length data <? 4)%nat then Err
+             else match gt with
+                  | None => Err
+                  | Some g =>
+                      rbind (read_bytes data) (fun pr =>
+                      rbind (ptr_wrap g (fst pr) (f (fst pr))) (fun v =>
+                      udt_map_loop fs' (snd pr) (acc ++ [(name, v)])))
+                  end
+      end
+  end.
+
+(* store into the struct field selected for a UDT element name *)
+Fixpoint set_by_tag (name : bytes) (v : gval) (fs : list (bytes * bytes * gval)) : list (bytes * bytes * gval) :=
+  (* the last field whose tag matches *)
+  match fs with
+  | [] => []
+  | (n, tag, x) :: r =>
+      let later := match by_tag name r None with Some _ => true | None => false end in
+      if negb later && negb (zlist_eqb tag []) && zlist_eqb tag name then (n, tag, v) :: r
+      else (n, tag, x) :: set_by_tag name v r
+  end.
+Fixpoint set_by_name (name : bytes) (v : gval) (fs : list (bytes * bytes * gval)) : list (bytes * bytes * gval) :=
+  match fs with
+  | [] => []
+  | (n, tag, x) :: r => if zlist_eqb n name then (n, tag, v) :: r else (n, tag, x) :: set_by_name name v r
+  end.
+Definition struct_set (name : bytes) (v : gval) (tys : list (bytes * bytes * gty)) (fs : list (bytes * bytes * gval)) :=
+  match by_tag name tys None with
+  | Some _ => set_by_tag name v fs
+  | None => set_by_name name v fs
+  end.
+
+(* unmarshalUDT into a struct (2389-2449) *)
+Fixpoint udt_struct_loop (fs : list (bytes * (odata -> gty -> ures))) (tys : list (bytes * bytes * gty))
+         (data : bytes) (acc : list (bytes * bytes * gval)) : res (list (bytes * bytes * gval)) :=
+  match fs with
+  | [] => Ok acc
+  | (name, f) :: fs' =>
+      match data with
+      | [] => Ok acc
+      | _ => if (length data <? 4)%nat then Err
+             else rbind (read_bytes data) (fun pr =>
+                  match struct_field name tys with
+                  | None => udt_struct_loop fs' tys (snd pr) acc
+                  | Some ft => rbind (ptr_wrap ft (fst pr) (f (fst pr))) (fun v =>
+                               udt_struct_loop fs' tys (snd pr) (struct_set name v tys acc))
+                  end)
+      end
+  end.
+
+Definition unmarshal_udt (fs : list (bytes * option gty * (odata -> gty -> ures))) (d : odata) (t : gty) : ures :=
+  match t with
+  | YStrMap =>
+      match d with
+      | None => Ok (GStrMap None)
+      | Some data => rmap (fun l => GStrMap (Some l)) (udt_map_loop fs data [])
+      end
+  | YStruct tys =>
+      let z := match zero_of (YStruct tys) with GStruct l => l | _ => [] end in
+      match bytes_of d with
+      | [] => Ok (GStruct z)
+      | data => rmap GStruct (udt_struct_loop (map (fun x => (fst (fst x), snd x)) fs) tys data z)
+      end
+  | _ => Err
+  end.
+
+(* unmarshalList (1650-1710), unmarshalMap (1775-1846) *)
+Definition unmarshal_list (pv : Z) (f : odata -> gty -> ures) (d : odata) (t : gty) : ures :=
+  let elem et := fun ed => ptr_wrap et ed (f ed) in
+  match t with
+  | YSlice et =>
+      match d with
+      | None => Ok (GSlice None)
+      | Some data =>
+          rbind (read_size pv data) (fun nr =>
+            if fst nr <? 0 then Panic     (* reflect.MakeSlice: negative len *)
+            else rmap (fun vs => GSlice (Some vs)) (list_loop (S (length data)) pv (elem et) (fst nr) (snd nr)))
+      end
+  | YArray k et =>
+      match d with
+      | None => Err
+      | Some data =>
+          rbind (read_size pv data) (fun nr =>
+            if negb (Z.of_nat k =? fst nr) then Err
+            else rmap GArray (list_loop (S (length data)) pv (elem et) (fst nr) (snd nr)))
+      end
+  | _ => Err
+  end.
+
+Definition unmarshal_map (pv : Z) (fk fv : odata -> gty -> ures) (d : odata) (t : gty) : ures :=
+  match t with
+  | YMap kt vt =>
+      match d with
+      | None => Ok (GMap None)
+      | Some data =>
+          rbind (read_size pv data) (fun nr =>
+            if fst nr <? 0 then Err
+            else rmap (fun l => GMap (Some l))
+                   (map_loop (S (length data)) pv (fun kd => ptr_wrap kt kd (fk kd)) (fun vd => ptr_wrap vt vd (fv vd))
+                             (fst nr) (snd nr) []))
+      end
+  | _ => Err
+  end.
+
+(* Unmarshal (225-286) on a non-pointer target type; pointer targets go through ptr_wrap *)
+Fixpoint unmarshal_core (pv : Z) (ty : cqlty) (d : odata) (t : gty) {struct ty} : ures :=
+  match ty with
+  | TNative id => unmarshal_native id d t
+  | TList e | TSet e => unmarshal_list pv (unmarshal_core pv e) d t
+  | TMap k e => unmarshal_map pv (unmarshal_core pv k) (unmarshal_core pv e) d t
+  | TTuple es => unmarshal_tuple (map (fun e => (gotype e, unmarshal_core pv e)) es) d t
+  | TUdt fs => unmarshal_udt (map (fun nf => (fst nf, gotype (snd nf), unmarshal_core pv (snd nf))) fs) d t
+  end.
+
+Definition unmarshal (pv : Z) (ty : cqlty) (d : odata) (t : gty) : ures :=
+  ptr_wrap t d (unmarshal_core pv ty d).
